@@ -376,3 +376,102 @@ Qed.
 
 Corollary fac_from_raw_to_holder_total d : wf_bytes d -> ok_or_documented (fac_from_raw_to_holder d).
 Proof. exact (fac_from_raw_total d). Qed.
+
+(* ================= every buffer the factory accepts ================= *)
+
+(* the inspectors agree with the header / base object the decoders see *)
+Lemma fac_pdu_type_unpack d h : wf_bytes d -> hdr_unpack d = Ok h -> fac_pdu_type d = Ok (h_type h).
+Proof.
+  intros W U. destruct (hdr_pack_unpack d h W U) as (V & _ & LY & _).
+  rewrite <- (firstn_skipn (Z.to_nat (hdr_header_len h)) d), <- LY. apply fac_pdu_type_layout, V.
+Qed.
+
+Lemma fac_directive_unpack d f : wf_bytes d -> fdir_unpack d = Ok f -> fac_is_file_directive d = Ok true ->
+  fac_pdu_directive_type d = (do t <- directive_type_of (fd_type f); Ok (Some t)).
+Proof.
+  intros W U I. destruct (fdir_unpack_inv d f W U) as (V & UH & _ & LY).
+  assert (T : h_type (fd_hdr f) = 0).
+  { unfold fac_is_file_directive in I. rewrite (fac_pdu_type_unpack d _ W UH) in I. cbn [bind] in I.
+    unfold PDU_FILE_DIRECTIVE in I. injection I as I. lia. }
+  rewrite <- (firstn_skipn (Z.to_nat (fdir_header_len f)) d), <- LY. apply fac_directive_layout; assumption.
+Qed.
+
+Lemma eof_unpack_fd_type d p : wf_bytes d -> eof_unpack d = Ok p ->
+  exists f, fdir_unpack d = Ok f /\ fd_type (eof_fd p) = fd_type f.
+Proof.
+  intros W U. rewrite eof_unpack_eq in U.
+  destruct (with_prelude_inv eof_body d p W U) as (f & UF & _ & _ & _ & B & _). exists f. split; [exact UF|].
+  revert B. generalize (slice_to d (end_of_params f)) as data. intros data. unfold eof_body.
+  destruct (_ >? len data); [discriminate|]. destruct (py_get data _); [|discriminate]. cbn [bind].
+  destruct (fdir_parse_fss f data _) as [[idx size]|]; [|discriminate]. cbn [bind].
+  destruct (len data >? idx).
+  - match goal with |- (do t <- ?x; _) = _ -> _ => destruct x as [t|] end; [|discriminate]. cbn [bind].
+    unfold eof_set_fault, eof_calc_len, eof_with_fault, eof_with_fd, fdir_set_param_len. cbn [eof_fd eof_fault].
+    destruct (hdr_set_dlen _ _); [|discriminate]. cbn [bind]. intros H. injection H as <-. reflexivity.
+  - intros H. injection H as <-. reflexivity.
+Qed.
+
+Lemma prompt_unpack_fd_type d p : wf_bytes d -> prompt_unpack d = Ok p ->
+  exists f, fdir_unpack d = Ok f /\ fd_type (pr_fd p) = fd_type f.
+Proof.
+  intros W U. rewrite prompt_unpack_eq in U.
+  destruct (with_prelude_inv prompt_body d p W U) as (f & UF & _ & _ & _ & B & _). exists f. split; [exact UF|].
+  revert B. generalize (slice_to d (end_of_params f)) as data. intros data. unfold prompt_body.
+  destruct (_ >=? len data); [discriminate|]. destruct (py_get data _); [|discriminate]. cbn [bind].
+  destruct (response_required_of _); [|discriminate]. cbn [bind]. intros H. injection H as <-. reflexivity.
+Qed.
+
+(* whatever buffer the factory accepts, the returned object is a well-formed instance of its
+   class: the accessor table applies to every holder the factory fills *)
+Theorem factory_output_wf d p : wf_bytes d -> fac_from_raw d = Ok (Some p) -> pdu_wf p.
+Proof.
+  intros W. unfold fac_from_raw.
+  destruct (fac_is_file_directive d) as [isd|] eqn:I; [|discriminate]. cbn [bind]. destruct isd; cbn [negb].
+  - destruct (fac_pdu_directive_type d) as [[t|]|] eqn:D; [|discriminate|discriminate]. cbn [bind].
+    destruct (t =? DT_EOF) eqn:E1.
+    { destruct (eof_unpack d) as [q|] eqn:U; [|discriminate]. cbn [bind]. intros H. injection H as <-. cbn [pdu_wf].
+      destruct (eof_unpack_fd_type d q W U) as (f & UF & ->).
+      rewrite (fac_directive_unpack d f W UF I) in D. unfold directive_type_of in D.
+      destruct (_ || _); [|discriminate]. cbn [bind] in D. unfold DT_EOF in E1. injection D as D. lia. }
+    destruct (t =? DT_METADATA). { destruct (md_unpack d); [|discriminate]. cbn [bind]. intros H; injection H as <-; exact Logic.I. }
+    destruct (t =? DT_FINISHED). { destruct (fin_unpack d); [|discriminate]. cbn [bind]. intros H; injection H as <-; exact Logic.I. }
+    destruct (t =? DT_ACK). { destruct (ack_unpack d); [|discriminate]. cbn [bind]. intros H; injection H as <-; exact Logic.I. }
+    destruct (t =? DT_NAK). { destruct (nak_unpack d); [|discriminate]. cbn [bind]. intros H; injection H as <-; exact Logic.I. }
+    destruct (t =? DT_KEEP_ALIVE). { destruct (ka_unpack d); [|discriminate]. cbn [bind]. intros H; injection H as <-; exact Logic.I. }
+    destruct (t =? DT_PROMPT) eqn:E7; [|discriminate].
+    destruct (prompt_unpack d) as [q|] eqn:U; [|discriminate]. cbn [bind]. intros H. injection H as <-. cbn [pdu_wf].
+    destruct (prompt_unpack_fd_type d q W U) as (f & UF & ->).
+    rewrite (fac_directive_unpack d f W UF I) in D. unfold directive_type_of in D.
+    destruct (_ || _); [|discriminate]. cbn [bind] in D. unfold DT_PROMPT in E7. injection D as D. lia.
+  - destruct (FileData.fd_unpack d) as [q|] eqn:U; [|discriminate]. cbn [bind]. intros H. injection H as <-. cbn [pdu_wf].
+    destruct (FileDataProofs.fd_unpack_inv d q W U) as (UH & HV & _).
+    unfold fac_is_file_directive in I. rewrite (fac_pdu_type_unpack d _ W UH) in I. cbn [bind] in I.
+    unfold PDU_FILE_DIRECTIVE in I. destruct HV as (_ & [T | T] & _); [rewrite T in I; discriminate|exact T].
+Qed.
+
+(* ... hence: for EVERY buffer the factory accepts, the holder's typed accessors succeed for the
+   class of the returned object and raise TypeError for the seven others *)
+Corollary factory_holder_table_any d p k : wf_bytes d -> fac_from_raw_to_holder d = Ok (Some p) -> 0 <= k <= 7 ->
+  holder_to k (Some p) = if k =? pdu_kind p then Ok p else Err EType.
+Proof. intros W H R. apply holder_accessor_table; [apply (factory_output_wf d p W H)|exact R]. Qed.
+
+(* the class of the returned object is the one the octets denote: type bit / directive octet *)
+Theorem factory_kind_matches d p : wf_bytes d -> fac_from_raw d = Ok (Some p) ->
+  fac_is_file_directive d = Ok (negb (pdu_kind p =? 0)) /\
+  fac_pdu_directive_type d = Ok (kind_code (pdu_kind p)).
+Proof.
+  intros W. unfold fac_from_raw.
+  destruct (fac_is_file_directive d) as [isd|] eqn:I; [|discriminate]. cbn [bind]. destruct isd; cbn [negb].
+  - destruct (fac_pdu_directive_type d) as [[t|]|] eqn:D; [|discriminate|discriminate]. cbn [bind].
+    unfold DT_EOF, DT_METADATA, DT_FINISHED, DT_ACK, DT_NAK, DT_KEEP_ALIVE, DT_PROMPT.
+    destruct (t =? 4) eqn:E1. { destruct (eof_unpack d); [|discriminate]. cbn [bind]. intros H; injection H as <-. cbn. split; [reflexivity|f_equal; f_equal; lia]. }
+    destruct (t =? 7) eqn:E2. { destruct (md_unpack d); [|discriminate]. cbn [bind]. intros H; injection H as <-. cbn. split; [reflexivity|f_equal; f_equal; lia]. }
+    destruct (t =? 5) eqn:E3. { destruct (fin_unpack d); [|discriminate]. cbn [bind]. intros H; injection H as <-. cbn. split; [reflexivity|f_equal; f_equal; lia]. }
+    destruct (t =? 6) eqn:E4. { destruct (ack_unpack d); [|discriminate]. cbn [bind]. intros H; injection H as <-. cbn. split; [reflexivity|f_equal; f_equal; lia]. }
+    destruct (t =? 8) eqn:E5. { destruct (nak_unpack d); [|discriminate]. cbn [bind]. intros H; injection H as <-. cbn. split; [reflexivity|f_equal; f_equal; lia]. }
+    destruct (t =? 12) eqn:E6. { destruct (ka_unpack d); [|discriminate]. cbn [bind]. intros H; injection H as <-. cbn. split; [reflexivity|f_equal; f_equal; lia]. }
+    destruct (t =? 9) eqn:E7; [|discriminate].
+    destruct (prompt_unpack d); [|discriminate]. cbn [bind]. intros H; injection H as <-. cbn. split; [reflexivity|f_equal; f_equal; lia].
+  - destruct (FileData.fd_unpack d); [|discriminate]. cbn [bind]. intros H. injection H as <-. cbn.
+    split; [reflexivity|]. unfold fac_pdu_directive_type. rewrite I. reflexivity.
+Qed.
